@@ -76,32 +76,41 @@ Theorem C15_resolve_rule : forall p q g h n i As from res sg ta, Forall (fun j =
 Proof. exact resolve_rule. Qed.
 Print Assumptions C15_resolve_rule.
 
-(* a dealer that is accepted after complaints of OTHER parties has published consistent pairs for all of them *)
-Theorem C15_accept_means_answered : forall p q g h n t i d As s tt streams res sg ta,
-  Forall (fun js => fst js < n) streams ->
+(* a dealer that is accepted after complaints has published consistent pairs for all of them, the receiver's own included *)
+Theorem C15_accept_means_answered : forall p q g h n t i d As s tt streams res own sg ta,
+  i < n -> Forall (fun js => fst js < n) streams ->
+  recv_complaint p q g h As (i + 1) s tt = Some own ->
   vss_receive p q g h n t i d As s tt streams res = Some {| vo_ret := true; vo_sigma := sg; vo_tau := ta |} ->
-  answered p q g h As (complaints_from n d streams) res \/ complaints_from n d streams = [].
+  answered p q g h As (recv_from n d i own streams) res \/ recv_from n d i own streams = [].
 Proof. exact accept_means_answered. Qed.
 Print Assumptions C15_accept_means_answered.
 
-(* qualification is a function of broadcast values only: the receiver's verdict depends on its own pair only through its own
-   complaint bit; two receivers with the same complaint bit and the same broadcast streams decide alike *)
-Theorem C15_vss_verdict_from_broadcasts : forall p q g h n t i1 i2 d As s1 t1 s2 t2 streams res o1 o2 c,
-  recv_complaint p q g h As (i1 + 1) s1 t1 = Some c -> recv_complaint p q g h As (i2 + 1) s2 t2 = Some c ->
-  vss_receive p q g h n t i1 d As s1 t1 streams res = Some o1 ->
-  vss_receive p q g h n t i2 d As s2 t2 streams res = Some o2 -> vo_ret o1 = vo_ret o2.
+(* qualification is a function of broadcast values only: the verdict depends on the sorted list of complaining parties (every
+   complaint, the receiver's own included, is broadcast) and on the dealer's broadcast answer, not on who evaluates it *)
+Theorem C15_vss_verdict_from_broadcasts : forall p q g h n t i1 i2 d As s1 t1 s2 t2 streams1 streams2 res o1 o2 c1 c2,
+  recv_complaint p q g h As (i1 + 1) s1 t1 = Some c1 -> recv_complaint p q g h As (i2 + 1) s2 t2 = Some c2 ->
+  recv_from n d i1 c1 streams1 = recv_from n d i2 c2 streams2 ->
+  vss_receive p q g h n t i1 d As s1 t1 streams1 res = Some o1 ->
+  vss_receive p q g h n t i2 d As s2 t2 streams2 res = Some o2 -> vo_ret o1 = vo_ret o2.
 Proof. exact verdict_from_broadcasts. Qed.
 Print Assumptions C15_vss_verdict_from_broadcasts.
 
-(* REFUTED on the code as it is: a receiver that complained and then accepts the dealer need not hold a consistent share *)
-Theorem C15_complainer_corrected_refuted :
-  exists p q g h n t i d a b s tt streams res o,
-    prime q /\ powm g q p = 1 /\ powm h q p = 1 /\
-    recv_complaint p q g h (commits p g h a b) (i + 1) s tt = Some true /\
-    vss_receive p q g h n t i d (commits p g h a b) s tt streams res = Some o /\
-    vo_ret o = true /\ share_ok p g h (commits p g h a b) (i + 1) (vo_sigma o) (vo_tau o) = Some false.
-Proof. exact complainer_not_corrected. Qed.
-Print Assumptions C15_complainer_corrected_refuted.
+(* "disqualified or forced to publish consistent ones" (holds since fix 3258c3f in /repo; it was refuted on the tree before):
+   a receiver that complained and accepts the dealer ends with a pair that matches the commitments ... *)
+Theorem C15_complainer_corrected : forall p q g h n t i d As s tt streams res o,
+  recv_complaint p q g h As (i + 1) s tt = Some true ->
+  vss_receive p q g h n t i d As s tt streams res = Some o -> vo_ret o = true ->
+  share_ok p g h As (i + 1) (vo_sigma o) (vo_tau o) = Some true.
+Proof. exact complainer_corrected. Qed.
+Print Assumptions C15_complainer_corrected.
+
+(* ... and so does every accepting receiver that did not complain: each honest party's share matches the public values *)
+Theorem C15_noncomplainer_consistent : forall p q g h n t i d As s tt streams res o,
+  recv_complaint p q g h As (i + 1) s tt = Some false ->
+  vss_receive p q g h n t i d As s tt streams res = Some o -> vo_ret o = true ->
+  share_ok p g h As (i + 1) (vo_sigma o) (vo_tau o) = Some true.
+Proof. exact noncomplainer_consistent. Qed.
+Print Assumptions C15_noncomplainer_consistent.
 
 (* key generation: every key share is the value of the joint polynomial F = sum_{j in QUAL} f_j ... *)
 Theorem C15_dkg_share_joint : forall q P qual s x, 0 < q ->
@@ -145,5 +154,10 @@ Example C15_nonvacuous_sharing :
   lagrange0 11 [(2, poly_eval 11 [5; 4] 2); (3, poly_eval 11 [5; 4] 3)] = Some 5 /\
   interpolate 11 [(1, poly_eval 11 [5; 4] 1); (3, poly_eval 11 [5; 4] 3)] = Some [5; 4].
 Proof. repeat split; vm_compute; reflexivity. Qed.
+(* a wrong pair (3,5) is sent to receiver 1, it complains, the dealer publishes (2,5): accepted with the corrected pair *)
+Example C15_nonvacuous_corrected :
+  recv_complaint 23 11 2 3 (commits 23 2 3 [5; 4] [2; 7]) 2 3 5 = Some true /\
+  vss_receive 23 11 2 3 3 1 1 0 (commits 23 2 3 [5; 4] [2; 7]) 3 5 [(2, [3])] [1; 2; 5] = Some {| vo_ret := true; vo_sigma := 2; vo_tau := 5 |}.
+Proof. split; vm_compute; reflexivity. Qed.
 Example C15_nonvacuous_answered : answered 23 11 2 3 (commits 23 2 3 [5; 4] [2; 7]) [2] [2; poly_eval 11 [5; 4] 3; poly_eval 11 [2; 7] 3].
 Proof. constructor; try reflexivity. constructor. Qed.
